@@ -152,6 +152,24 @@ func genC01(c *Ctx, emit func(class, op string)) {
 			emit("stream-reserved-bits-as-length", "stream "+defaultStart+" "+hx(append(append(randFrame(r, 1+r.Intn(20)), g...), randFrame(r, 1+r.Intn(20))...)))
 		}
 	}
+	// the other way round: a length field of 256 or more, and everything else consistent with reading
+	// only its low 8 or 9 bits: a payload of that many bytes, CRC over leader and that payload
+	for i := 0; i < c.N(12, 80); i++ {
+		hi := byte(1 + r.Intn(3))
+		lo := byte([]int{1, 2, 5, 19, 1 + r.Intn(255)}[r.Intn(5)])
+		for _, width := range []uint{8, 9} {
+			n := (int(hi)<<8 | int(lo)) & (1<<width - 1)
+			if n == 0 || n == int(hi)<<8|int(lo) {
+				continue
+			}
+			g := append([]byte{0xd3, hi, lo}, payloadOfType(r, pickType(r), n)...)
+			cc := crc24(g)
+			g = append(g, byte(cc>>16), byte(cc>>8), byte(cc))
+			get("length-read-too-narrow", g)
+			get("length-read-too-narrow", append(append([]byte{}, g...), junkRun(r, 1100)...))
+			emit("stream-length-read-too-narrow", "stream "+defaultStart+" "+hx(append(append(randFrame(r, 1+r.Intn(20)), g...), junkRun(r, 1100)...)))
+		}
+	}
 	// a start byte followed by a zero length field, inside streams (any type bits after it)
 	for i := 0; i < c.N(40, 400); i++ {
 		typ := pickType(r)
@@ -785,7 +803,7 @@ func init() {
 	}
 	props["C01"] = &Prop{
 		Rule: "ops getmsg/stream: valid frames of payload length 1..40,255..257,1021..1023+random (thorough: all 1..1023) and random types; " +
-			"each CRC byte corrupted alone; each reserved bit set alone; length field off by one with matching CRC; every truncation; wrong preamble; " +
+			"each CRC byte corrupted alone; each reserved bit set alone; length field off by one with matching CRC; length fields of 256 and more with a payload and CRC that fit a reading of their low 8 or 9 bits only; every truncation; wrong preamble; " +
 			"frame + trailing bytes incl. the CRC-over-the-long-buffer input; batches; zero length; mixed streams with embedded 0xD3; frames followed by damaged copies of themselves (CRC bytes as sent) and by siblings with the same type, leading bytes and low length byte. " +
 			"non-trivial = the real code returned at least one message; distinct = distinct op line",
 		Gen: genC01, Oracle: oracleC01,
